@@ -263,13 +263,27 @@ MixPolicies ==
                LG(<<3, NSys - 2, 10>>, "trap") >>) :
      d \in {"allow", "kill_process"}, x \in {TRUE, FALSE}, n \in {1, 7, 8, 9, 16, 64}, l1 \in MixLists, l2 \in MixLists, sw \in BOOLEAN}
 
+\* one list of 129..300 conditions of five to six instructions each (its own no-match distance is a multiple of the jump limit:
+\* bridges behind bridges), satisfiable: every argument must be >= 1, <= 900, > 0, < 1000 and differ from some values above 100
+HugeOps == <<"NotEqual", "GreaterOrEqual", "LessOrEqual", "NotEqual", "GreaterThan", "LessThan">>
+HugeVal(j) == CASE HugeOps[(j % 6) + 1] = "NotEqual" -> 100 + j
+                [] HugeOps[(j % 6) + 1] = "GreaterOrEqual" -> 1
+                [] HugeOps[(j % 6) + 1] = "LessOrEqual" -> 900
+                [] HugeOps[(j % 6) + 1] = "GreaterThan" -> 0
+                [] OTHER -> 1000
+HugeList(c) == [j \in 1..c |-> [arg |-> (j \div 6) % 6, op |-> HugeOps[(j % 6) + 1], val |-> HugeVal(j)]]
+HugeListPolicies ==
+  UNION {{Mk(d, TRUE, << LG(IdxRange(0, n - 1), "kill_process"),
+                         [names |-> <<>>, conds |-> [j \in 1..Len(sh) |-> Entry(NSys - 2, sh[j])] \o <<Entry(NSys - 1, <<DC(5, "Equal", 7)>>)>>, act |-> "errno"] >>) :
+            n \in {0, 3}, sh \in {<<HugeList(c)>>, <<<<DC(0, "Equal", 2000)>>, HugeList(c)>>, <<HugeList(c), <<DC(1, "Equal", 2000)>>>>}, d \in {"allow", "errno"}} : c \in {129, 160, 200, 300}}
+
 \* the kernel's limit (C07: every defect-free policy that fits 4096 instructions is accepted): 993 single-condition lists
 \* for one syscall (4 instructions each) in one group plus n names in a second group put the program size at 4090..4101
 LimitPolicies ==
   {Mk("allow", x, << [names |-> <<>>, conds |-> [j \in 1..993 |-> Entry(NSys - 1, EqLists(993, 1)[j])], act |-> "errno"],
                      LG(IdxRange(0, n - 1), "kill_process") >>) : x \in {TRUE}, n \in 90..101}
 
-Explicit(s) == s \in {"defects", "defects2", "long1", "long2", "longconds", "klong", "chain", "deep", "limit", "longdefects", "longops", "longlist", "shortlist", "mixgroup"}
+Explicit(s) == s \in {"defects", "defects2", "long1", "long2", "longconds", "klong", "chain", "deep", "limit", "longdefects", "longops", "longlist", "shortlist", "mixgroup", "hugelist"}
 ExplicitPolicies(s) ==
   CASE s = "defects" -> BasePolicies(0) \cup Defective1(0)
     [] s = "defects2" -> BasePolicies(0) \cup Defective1(0) \cup Defective2(0)
@@ -282,6 +296,7 @@ ExplicitPolicies(s) ==
     [] s = "shortlist" -> LongListPolicies({0, 3}, {1, 2, 3, 7})
     [] s = "deep" -> DeepPolicies
     [] s = "mixgroup" -> MixPolicies
+    [] s = "hugelist" -> HugeListPolicies
 
 ---------------------------------------------------------------------------
 \* SetToSeq fixes one order; it is exported with the cases
@@ -302,6 +317,10 @@ EventSeq(s) ==
          \* all six arguments equal to v; v = 1 satisfies the first short list, 2 none of the short ones, 101..228 break the long list at one place
          SetToSeq({Ev(ar, nr, [a \in 0..5 |-> v]) : ar \in {"own", "other"}, nr \in {0, NSys - 2, NSys - 1, NSys}, v \in {0, 1, 2, 7, 8, 51, 101, 106, 112, 163, 164, 165, 228, 251}}
                   \cup {Ev(ar, NSys - 2, [a \in 0..5 |-> IF a = 0 THEN 251 ELSE IF a = 1 THEN 2 ELSE v]) : ar \in {"own"}, v \in {0, 103, 200}})
+    [] s = "hugelist" ->
+         SetToSeq({Ev(ar, nr, [a \in 0..5 |-> v]) : ar \in {"own", "other"}, nr \in {0, NSys - 2, NSys - 1, NSys},
+                                                  v \in {0, 1, 5, 7, 101, 104, 106, 160, 233, 300, 397, 401, 899, 900, 901, 999, 1000, 2000}}
+                  \cup {Ev("own", NSys - 2, [a \in 0..5 |-> IF a = p THEN w ELSE 5]) : p \in 0..5, w \in {0, 901, 2000}})
     [] s = "mixgroup" ->
          SetToSeq({Ev(ar, nr, [a \in 0..5 |-> v]) : ar \in {"own", "other"}, nr \in {0, 3, 10, 16, 17, 18, 25, 73, 74, NSys - 2, NSys - 1, NSys, X32Bit + 3}, v \in {0, 1, 2}})
     [] s = "limit" ->
